@@ -165,6 +165,14 @@ func modes(x *mon.Ctx) {
 				return m.CryptBlocks, nil
 			}})
 		}
+		// plain block-mode decrypters on whole blocks (1..20 blocks: a block multiple is the caller's structural
+		// obligation, the bytes are hostile); other lengths are refused by the documented "input not full blocks" panic
+		iv := []byte("0123456789ABCDEF")
+		out = append(out, lp{"ECB.Decrypt", func() (func(dst, src []byte), error) {
+			return smcipher.NewECBDecrypter(block).CryptBlocks, nil
+		}}, lp{"CBC.Decrypt", func() (func(dst, src []byte), error) {
+			return cipher.NewCBCDecrypter(block, iv).CryptBlocks, nil
+		}})
 		out = append(out, lp{"HCTR.DecryptBytes", func() (func(dst, src []byte), error) {
 			h, err := smcipher.NewHCTR(block, tweak, key)
 			if err != nil {
@@ -189,7 +197,11 @@ func modes(x *mon.Ctx) {
 			c.Class("min-length/%s", m.name)
 			var cf caseFindings
 			calls, refusals := 0, 0
-			for n := 0; n <= maxLen; n++ {
+			blockMode := strings.HasSuffix(m.name, "CBC.Decrypt") || strings.HasSuffix(m.name, "ECB.Decrypt")
+			for n := 0; n <= max(maxLen, 320); n++ {
+				if blockMode && n%16 != 0 {
+					continue
+				}
 				data := c.R.Bytes(n)
 				src := gSrc.Put(data, hi)
 				dst := gDst.Side(n, !hi)
